@@ -941,6 +941,7 @@ OnnxSplitToSequenceOnes(x, axis, keep) ==
 \* produces 0/1).
 OnnxBoolOutput(op, attrs) ==
   \/ op \in {"Equal", "Greater", "GreaterOrEqual", "Less", "LessOrEqual", "And", "Or", "Xor", "Not", "IsInf", "IsNaN"}
+  \* (Dropout's second output, the mask, is bool as well; its first is not: handled by exact 0/1 comparison)
   \/ op = "Cast" /\ "to" \in DOMAIN attrs /\ attrs["to"] = <<9>>
 AHas(attrs, name) == name \in DOMAIN attrs /\ Len(attrs[name]) > 0
 AOpt(attrs, name, default) == IF AHas(attrs, name) THEN attrs[name][1] ELSE default
@@ -1200,5 +1201,9 @@ OnnxEval(op, attrs, ins) ==
          THEN (IF Scal(2) < 1 THEN Undefined ELSE Ok(OnnxSplit(x, ax, ChunkSizes(dim, Scal(2)))))
          ELSE IF Len(ins[2].shape) = 1 /\ DefSplitSizes(x, ax, L(2)) THEN Ok(OnnxSplit(x, ax, L(2)))
          ELSE Undefined
+    [] op = "Dropout" -> IF ~Need(1) THEN Undefined ELSE
+         \* inference mode (training_mode absent or false): output = data, mask = all true
+         IF Has(3) /\ (~IsScal(3) \/ Scal(3) # 0) THEN Unmodelled
+         ELSE Ok(<<T(1), MapT(LAMBDA v : 1, T(1), "i32")>>)
     [] OTHER -> Unmodelled
 =============================================================================
